@@ -109,6 +109,18 @@ impl Object {
         Self::with_type((value << VALUE_SHIFT_BITS) as _, Type::Int)
     }
 
+    /// Create a new integer value, or an error if the value does not fit in the bits left next to the type tag
+    #[inline(always)]
+    pub fn try_int(value: isize) -> Result<Self, Error> {
+        if (MIN_INT..=MAX_INT).contains(&value) {
+            Ok(Self::int(value))
+        } else {
+            Err(Error::TypeError(format!(
+                "het getal {value} valt buiten het bereik van een integer"
+            )))
+        }
+    }
+
     /// Create a new function value
     pub fn function(ip: u32, num_locals: u16) -> Self {
         let value = ((ip as isize) << 16) | num_locals as isize;
@@ -367,7 +379,7 @@ impl PartialOrd for Object {
 }
 
 macro_rules! impl_arith {
-    ($func_name:ident, $op:tt) => {
+    ($func_name:ident, $op:tt, $checked_op:ident) => {
         #[inline(always)]
         pub(crate) fn $func_name(self, rhs: Self, gc: &mut GC) -> Result<Object, Error> {
             if self.tag() != rhs.tag() {
@@ -375,7 +387,11 @@ macro_rules! impl_arith {
             }
 
             let result = match self.tag() {
-                Type::Int => Object::int(self.as_int() $op rhs.as_int()),
+                Type::Int => match self.as_int().$checked_op(rhs.as_int()) {
+                    Some(value) => Object::try_int(value)?,
+                    None if rhs.as_int() == 0 => return Err(Error::ArgumentError(format!("kan geen {} doen met nul als deler", stringify!($op)))),
+                    None => return Err(Error::TypeError(format!("de uitkomst van {} valt buiten het bereik van een integer", stringify!($op)))),
+                },
 
                 // Safety: We've already asserted the object type
                 Type::Float => unsafe {
@@ -421,11 +437,11 @@ macro_rules! impl_cmp {
 }
 
 impl Object {
-    impl_arith!(add, +);
-    impl_arith!(sub, -);
-    impl_arith!(mul, *);
-    impl_arith!(div, /);
-    impl_arith!(rem, %);
+    impl_arith!(add, +, checked_add);
+    impl_arith!(sub, -, checked_sub);
+    impl_arith!(mul, *, checked_mul);
+    impl_arith!(div, /, checked_div);
+    impl_arith!(rem, %, checked_rem);
 
     impl_cmp!(gt, >, ordered);
     impl_cmp!(gte, >=, ordered);
